@@ -462,6 +462,19 @@ pub mod debug {
     #[derive(Clone, Copy, PartialEq, Debug)]
     pub struct DebugControlRegister(usize);
 
+    #[cfg(feature = "verif")]
+    impl DebugControlRegister {
+        /// Build a control register image from a raw DR7 value (verification hook).
+        pub fn from_raw(raw: usize) -> Self {
+            Self(raw)
+        }
+
+        /// Raw DR7 value (verification hook).
+        pub fn raw(&self) -> usize {
+            self.0
+        }
+    }
+
     impl DebugControlRegister {
         /// Enable detection of exact instruction causing a data breakpoint condition for the current task.
         /// This is not supported by `x86_64` processors,
